@@ -411,8 +411,9 @@ pub fn rows_c09(args: &[String]) -> i32 {
     }
     for (m, ext) in [(&b"caf\xc3\xa9"[..], None), (b"plain", Some(&b"caf\xc3\xa9"[..])), (b"\xff", None), (b"\xb5V", Some(&b"x"[..]))] {
         let e = match ext { None => Error::custom(55, m), Some(x) => Error::custom(55, m).extended(x) };
+        let p0 = panics();
         let r = fmt(&e);
-        out.put(&json!({"t": "unitfail", "kind": "non-ascii-error-item", "pos": 0, "finerr": r.is_none(), "text": bytes_json(&r.unwrap_or_default())}));
+        out.put(&json!({"t": "unitfail", "kind": "non-ascii-error-item", "pos": 0, "finerr": r.is_none() && panics() == p0, "text": bytes_json(&r.unwrap_or_default())}));
     }
     for (c, m) in [(1i16, &b"One"[..]), (32767, b"Max custom"), (-32768, b"Min"), (100, b"it's"), (-301, b"x,y")] {
         let e = Error::custom(c, m);
@@ -430,7 +431,7 @@ pub fn rows_c09(args: &[String]) -> i32 {
         for pos in 0..3usize {
             for kind in ["empty-list", "non-ascii-string"] {
                 let mut buf: Vec<u8> = Vec::new();
-                let fin = {
+                let fin = catch(std::panic::AssertUnwindSafe(|| {
                     let mut u = buf.response_unit().unwrap();
                     for k in 0..3usize {
                         if k == pos {
@@ -440,8 +441,9 @@ pub fn rows_c09(args: &[String]) -> i32 {
                         }
                     }
                     u.finish()
-                };
-                out.put(&json!({"t": "unitfail", "kind": kind, "pos": pos, "finerr": fin.is_err(), "text": bytes_json(&buf)}));
+                }));
+                // a panic is not "the unit failed as required"
+                out.put(&json!({"t": "unitfail", "kind": kind, "pos": pos, "finerr": matches!(fin, Ok(Err(_))), "text": bytes_json(&buf)}));
             }
         }
         let mut buf: Vec<u8> = Vec::new();
